@@ -647,7 +647,14 @@ func (n *Node) ConsensusDigest(slots int) string {
 // ProduceMomentumOnly makes the elected pillar produce and insert the next momentum exactly as
 // pillar.worker.generateMomentum + broadcaster.CreateMomentum do, but without the contract auto-receive and update
 // phases that follow in a full producer event (a pillar whose task was stopped after broadcasting its momentum).
-func (n *Node) ProduceMomentumOnly(skip int) error {
+func (n *Node) ProduceMomentumOnly(skip int) error { return n.produceMomentumOnly(skip, false) }
+
+// ProduceForeignEmptyMomentum inserts the momentum the elected pillar makes when its own node has the chain but none of
+// the blocks pooled here (they have not reached it yet): an empty momentum. This node handles it like any momentum
+// received from a peer and keeps (re-derives) its pool.
+func (n *Node) ProduceForeignEmptyMomentum(skip int) error { return n.produceMomentumOnly(skip, true) }
+
+func (n *Node) produceMomentumOnly(skip int, empty bool) error {
 	t := n.NextSlot(skip)
 	expected, err := n.Cons.GetMomentumProducer(t)
 	if err != nil {
@@ -666,6 +673,9 @@ func (n *Node) ProduceMomentumOnly(skip int) error {
 	insert := n.Chain.AcquireInsert("vnode momentum-only generate")
 	st := n.Chain.GetFrontierMomentumStore()
 	blocks := n.Chain.GetNewMomentumContent()
+	if empty {
+		blocks = nil
+	}
 	prev, err := st.GetFrontierMomentum()
 	if err != nil {
 		insert.Unlock()
